@@ -409,11 +409,13 @@ def _distance_with_params_ndim(t):
 
 
 def _distance_c_with_params(t):
-    return dtw_cc.distance(t[0], t[1], **t[2])
+    # The C library expects C-contiguous buffers
+    return dtw_cc.distance(util_numpy.verify_np_array(t[0]), util_numpy.verify_np_array(t[1]), **t[2])
 
 
 def _distance_c_with_params_ndim(t):
-    return dtw_cc.distance_ndim(t[0], t[1], **t[2])
+    # The C library expects C-contiguous buffers (pickling keeps Fortran-ordered arrays Fortran-ordered)
+    return dtw_cc.distance_ndim(util_numpy.verify_np_array(t[0]), util_numpy.verify_np_array(t[1]), **t[2])
 
 
 def warping_paths(s1, s2, psi_neg=True, keep_int_repr=False, **kwargs):
